@@ -469,3 +469,19 @@ Definition chk_l2_classes (files : list ast) (iface : string) : list N :=
       end
   | _ => []
   end.
+
+(* ---- C04: the guards scraped from the emitted skeleton against the model ---- *)
+Require Import Skel.
+Definition chk_guards (files : list ast) (iface : string) (scraped : list (string * list (N * N))) : list N :=
+  match front Cli Debug files with
+  | Ok mir =>
+      match find (fun t => match t with MTIface i => String.eqb (mi_name i) iface | _ => false end) mir with
+      | Some (MTIface top) =>
+          [N.of_nat (List.length (filter (fun f =>
+             match alookup (mf_name f) scraped with
+             | Some g => negb (list_eqb (fun a b => (fst a =? fst b) && (snd a =? snd b)) g (guards (mf_params f)))
+             | None => true end) (mnode_funcs (mi_nodes top))))]
+      | _ => [999]
+      end
+  | _ => [999]
+  end.
